@@ -157,6 +157,8 @@ class Facts:
         self.config = config
         self.fns = {k: Fn(v) for k, v in cfgfacts["functions"].items()}
         self.records = {r["name"]: r for r in cfgfacts["records"].values()}
+        for r_ in self.records.values():
+            RECORD_FIELDS[r_["name"]] = [f_.get("name") for f_ in r_.get("fields", [])]
         self.globals = cfgfacts["globals"]
         self.enums = cfgfacts["enums"]
         self.by_name = {}
@@ -427,6 +429,7 @@ def through_param(n, _depth=0):
     return n
 
 
+RECORD_FIELDS = {}  # record name -> field names in declaration order (lets value tracking see through aggregates returned by helpers)
 FIELD_ALIAS = {}    # canonical qualified field name -> {actual qualified names}: lets a rule name a field by its role (see rules/oth.py)
 
 
